@@ -1,6 +1,7 @@
 package main
 
 import (
+	"bytes"
 	"fmt"
 	"io"
 	"net"
@@ -53,6 +54,9 @@ var c08Causes = []string{
 	"sshd-pipe-eof-mid-record", "audit-pipe-eof-mid-record",
 	// not one offending record but a burst of them (each is an error of its own)
 	"burst-of-unauditable-records",
+	// the events output (a FIFO whose reader goes away) starts failing when an
+	// audit event of a correlated session is written
+	"write-failure-on-audit-event",
 	"write-failure-on-sshd-line",
 	"sshd-path-regular-file", "sshd-path-missing", "sshd-path-directory",
 	"audit-path-regular-file", "audit-path-missing", "audit-path-directory",
@@ -77,7 +81,7 @@ func startPump(path string, d *daemon, ses string, pid int) (*pump, error) {
 	var err error
 	deadline := time.Now().Add(60 * time.Second)
 	for {
-		fd, err = syscall.Open(path, syscall.O_WRONLY|syscall.O_NONBLOCK, 0)
+		fd, err = syscall.Open(path, syscall.O_WRONLY|syscall.O_NONBLOCK|syscall.O_CLOEXEC, 0)
 		if err == nil {
 			break
 		}
@@ -172,6 +176,8 @@ func c08Run(r *vlib.Run, sc c08Scenario, idx int) (evaluated bool) {
 		label += "/output-missing"
 	}
 	switch sc.Cause {
+	case "write-failure-on-audit-event":
+		o.outFifo = true
 	case "write-failure-on-sshd-line":
 		o.outPath = "/dev/full"
 	case "sshd-path-regular-file":
@@ -227,8 +233,8 @@ func c08Run(r *vlib.Run, sc c08Scenario, idx int) (evaluated bool) {
 		}
 		return f
 	}
-	needS := strings.HasPrefix(sc.Cause, "sshd-pipe-eof") || sc.Cause == "write-failure-on-sshd-line"
-	needA := strings.HasPrefix(sc.Cause, "audit-pipe-eof") || sc.Cause == "malformed-audit-line" || sc.Cause == "burst-of-unauditable-records"
+	needS := strings.HasPrefix(sc.Cause, "sshd-pipe-eof") || sc.Cause == "write-failure-on-sshd-line" || sc.Cause == "write-failure-on-audit-event"
+	needA := strings.HasPrefix(sc.Cause, "audit-pipe-eof") || sc.Cause == "malformed-audit-line" || sc.Cause == "burst-of-unauditable-records" || sc.Cause == "write-failure-on-audit-event"
 	if sc.OutputMissing {
 		// no worker is started before the output file exists: nobody will open the pipes
 	} else if !strings.HasPrefix(sc.Cause, "sshd-path") && (!sc.NoWriter || needS) {
@@ -242,7 +248,7 @@ func c08Run(r *vlib.Run, sc c08Scenario, idx int) (evaluated bool) {
 	if !sc.OutputMissing && !strings.HasPrefix(sc.Cause, "audit-path") && (!sc.NoWriter || needA) {
 		if sc.Saturated {
 			ses, pid := "", 0
-			if o.outPath == "" && ws != nil {
+			if o.outPath == "" && ws != nil { // (a FIFO output has no outPath in the options either)
 				// bind a session first: login line, wait for its UserLogin in the output
 				io.WriteString(ws, "31337 Accepted password for load from 10.9.9.9 port 999 ssh2\n")
 				if d.waitForOutput(func(b []byte) bool { return strings.Contains(string(b), `"loggedAs":"load"`) }, 60*time.Second) {
@@ -404,6 +410,26 @@ func c08Run(r *vlib.Run, sc c08Scenario, idx int) (evaluated bool) {
 		} else if wa != nil {
 			io.WriteString(wa, b.String())
 		}
+	case "write-failure-on-audit-event":
+		if pm == nil {
+			// idle: bind a session and let its LOGIN record come out, then break the output
+			if ws == nil || wa == nil {
+				r.Inconclusive(label + ": pipes not opened")
+				return false
+			}
+			io.WriteString(ws, "31338 Accepted password for wf from 10.9.9.8 port 998 ssh2\n")
+			io.WriteString(wa, vlib.AuLogin(vlib.BaseTSms+1, 21, "31338", "31338")+"\n")
+			if !d.waitForOutput(func(b []byte) bool { return bytes.Count(b, []byte("\n")) >= 2 }, 60*time.Second) {
+				r.Inconclusive(label + ": the session's first events did not come out")
+				return false
+			}
+		}
+		d.breakOutput()
+		if pm == nil {
+			for k := 0; k < 3; k++ {
+				io.WriteString(wa, vlib.AuUser("USER_START", vlib.BaseTSms+int64(30+k), uint32(30+k), 31338, "31338", "PAM:session_open", "success")+"\n")
+			}
+		}
 	case "write-failure-on-sshd-line":
 		if ws != nil {
 			io.WriteString(ws, "4242 Invalid user bob from 10.0.0.1 port 22\n")
@@ -414,6 +440,10 @@ func c08Run(r *vlib.Run, sc c08Scenario, idx int) (evaluated bool) {
 		d.cmd.Process.Signal(syscall.SIGINT)
 	}
 	t0 := time.Now()
+	pumpedAtInjection := int64(0)
+	if pm != nil {
+		pumpedAtInjection = atomic.LoadInt64(&pm.lines)
+	}
 	exited, dump := d.waitExit(30 * time.Second)
 	if pm != nil {
 		pm.halt()
@@ -429,6 +459,14 @@ func c08Run(r *vlib.Run, sc c08Scenario, idx int) (evaluated bool) {
 	row := map[string]any{"scenario": label, "exited": exited, "writer_stalls_before_injection": stalls, "lines_pumped": pumped, "lines_in_flight_before_injection": inflight}
 	if !exited {
 		stuck, why := classifyDaemonDump(dump)
+		if more := pumped - pumpedAtInjection; !stuck && failureCause(sc.Cause) && pm != nil && more > 5000 {
+			// not parked but busy: it went on taking audit lines for the whole
+			// watchdog although one of its workers had failed
+			atomic.AddInt32(&c08Hangs, 1)
+			r.Violation(sig+":keeps-consuming-its-input-after-the-failure", fmt.Sprintf("%s: daemon did not exit and took %d more audit lines after the failure; %s", label, more, why), map[string]any{"scenario": sc, "dump": trunc(dump, 6000)})
+			r.Sample(row)
+			return true
+		}
 		if stuck {
 			atomic.AddInt32(&c08Hangs, 1)
 			r.Violation(sig+":daemon-keeps-running", fmt.Sprintf("%s: daemon did not exit; %s", label, why), map[string]any{"scenario": sc, "dump": trunc(dump, 6000)})
@@ -467,7 +505,7 @@ func checkC08(r *vlib.Run) int {
 		for _, c := range c08Causes {
 			scs = append(scs, c08Scenario{Cause: c})
 		}
-		for _, c := range []string{"SIGTERM", "malformed-audit-line", "sshd-pipe-eof", "SIGINT", "audit-pipe-eof-mid-record"} {
+		for _, c := range []string{"SIGTERM", "malformed-audit-line", "sshd-pipe-eof", "SIGINT", "audit-pipe-eof-mid-record", "write-failure-on-audit-event"} {
 			scs = append(scs, c08Scenario{Cause: c, Saturated: true})
 		}
 		for _, c := range c08Causes {
@@ -542,7 +580,7 @@ func checkC08(r *vlib.Run) int {
 	r.Assumptions = []string{"'saturated' is observed: the pumping writer's write(2) hit EAGAIN at least five times and the number of lines in flight between pipe and output stopped growing (or passed 10000) before the fault is injected, otherwise the scenario is inconclusive",
 		"'does not exit' is a violation only if the SIGQUIT dump shows main parked in errgroup.Wait and a worker parked; otherwise inconclusive",
 		"signals may end the process with any status; failures must give a non-zero status"}
-	return r.Finish(evals, dist.Len(), "built daemon x failure cause {sshd pipe EOF, audit pipe EOF, either pipe's EOF in the middle of a record, malformed audit line, a burst of 40 LOGIN records with a non-numeric pid, event write failure via /dev/full, sshd/audit path is a regular file / missing / a directory, SIGTERM, SIGINT} x load {idle with writers attached, idle with the other pipe still waiting for its writer, saturated by a pumping writer} x log level {error, debug}, six causes with the HTTP health/metrics server enabled and three of them with a scrape client that never reads its answers, every cause with -audit-metrics (ticker member of the worker group, 20 ms), both signals while the daemon still waits for its events output file to appear, every cause right after the pipes were opened (workers still starting up); thorough: x3 and with the -race build; distinct = (cause, load) pairs evaluated")
+	return r.Finish(evals, dist.Len(), "built daemon x failure cause {sshd pipe EOF, audit pipe EOF, either pipe's EOF in the middle of a record, malformed audit line, a burst of 40 LOGIN records with a non-numeric pid, event write failure via /dev/full (on an sshd line) and via a FIFO output whose reader goes away (on an audit event of a correlated session), sshd/audit path is a regular file / missing / a directory, SIGTERM, SIGINT} x load {idle with writers attached, idle with the other pipe still waiting for its writer, saturated by a pumping writer} x log level {error, debug}, six causes with the HTTP health/metrics server enabled and three of them with a scrape client that never reads its answers, every cause with -audit-metrics (ticker member of the worker group, 20 ms), both signals while the daemon still waits for its events output file to appear, every cause right after the pipes were opened (workers still starting up); thorough: x3 and with the -race build; distinct = (cause, load) pairs evaluated")
 }
 
 func lastLineOf(s string) string {
